@@ -88,6 +88,8 @@ class _Rewriter(ast.NodeTransformer):
         f = node.func
         if isinstance(f, ast.Name) and f.id == 'str' and len(node.args) == 1 and not node.keywords:
             return ast.Call(ast.Name('__symstr__', ast.Load()), node.args, [])
+        if isinstance(f, ast.Name) and f.id in ('int', 'float') and len(node.args) == 1 and not node.keywords:
+            return ast.Call(ast.Name('__sym%s__' % f.id, ast.Load()), node.args, [])
         if isinstance(f, ast.Name) and f.id == 'dict' and len(node.args) == 1:
             return ast.Call(ast.Name('__symdict__', ast.Load()), node.args, node.keywords)
         if (isinstance(f, ast.Attribute) and f.attr == 'format'
@@ -123,6 +125,21 @@ class _Rewriter(ast.NodeTransformer):
 
 
 _loaded = {}
+
+
+def _model_int(x):
+    """builtin int(); model NumPy scalars/arrays hand out their (possibly symbolic) value."""
+    from .env import symnp
+    if isinstance(x, (symnp.generic, symnp.ndarray)):
+        return x.__int__()
+    return int(x)
+
+
+def _model_float(x):
+    from .env import symnp
+    if isinstance(x, symnp.generic):
+        return x.__float__()
+    return float(x)
 
 
 def _mapping_dict(*a, **k):
@@ -195,6 +212,8 @@ def load(env=True, stub_readme=True, pkg=None):
             mod.__dict__['__symstr__'] = holes.symstr
             mod.__dict__['__symformat__'] = holes.symformat
             mod.__dict__['__symdict__'] = _mapping_dict
+            mod.__dict__['__symint__'] = _model_int
+            mod.__dict__['__symfloat__'] = _model_float
         exec(code, mod.__dict__)
     if env:
         # pure layout: textwrap on text with placeholders is applied identically on both
